@@ -305,7 +305,7 @@ static void DecodeADDSUB(Word Index) {
                 OK    = True;
                 Shift = (ArgCnt == 1) ? 0 : EvalStrIntExpression(&ArgStr[2], UInt4, &OK);
                 if (OK) {
-                    AdrLong = EvalStrIntExpressionOffs(&ArgStr[1], 1, UInt16, &OK);
+                    AdrLong = EvalStrIntExpressionOffs(&ArgStr[1], 1, Int16, &OK);
                     if (OK) {
                         if ((Shift == 0) && (Hi(AdrLong) == 0)) {
                             CodeLen     = 1;
